@@ -258,6 +258,8 @@ class FsRef:
             return "ok"
         if op in ("exists", "isfile", "isdir", "size", "list", "sfs_size", "sfs_list"):
             n = self.find(self.segs(t[2]))
+            if n is not None and not isinstance(n, dict) and unhx(t[2]).endswith(b"/"):
+                n = None          # `file/` names nothing: the final separator asks for an entry below a regular file (ENOTDIR)
             if op == "exists":
                 return "b=%d" % (n is not None)
             if op == "isfile":
@@ -407,6 +409,9 @@ def gen_fs_case(rng, tier, big):
         if p and rng.chance(1, 3):
             emit("ps size " + hx(b"/".join(p) + b"/"))          # trailing separator on a directory
             emit("ps list " + hx(b"/".join(p) + b"/"))
+    for p in files[:6]:
+        for op in ("exists", "isfile", "isdir", "size", "sfs_size", "list"):
+            emit("ps %s %s" % (op, hx(b"/".join(p) + rng.pick([b"/", b"//"]))))      # trailing separator(s) on a regular file
     for p in files:
         for op in ("exists", "isfile", "isdir", "size", "sfs_size"):
             emit("ps %s %s" % (op, rel(p)))
@@ -564,6 +569,12 @@ class FileRef:
             elif kind == "a":
                 self.files.setdefault(name, bytearray())
             self.objs[t[2]] = {"name": name, "kind": kind, "pos": len(self.files[name]) if kind == "a" else 0, "mode": mode}
+            if kind != "r":
+                # the file changes behind the back of the read streams that are open on it: what their buffers hold is stdio's
+                # business, but the questions that go to the file itself (size) keep their meaning (see `allowed`)
+                for k2, o2 in self.objs.items():
+                    if o2 and k2 != t[2] and o2["name"] == name and o2["kind"] == "r":
+                        o2["stale"] = True
             return "ok"
         if t[2] not in self.objs:
             raise Invalid()
@@ -642,7 +653,12 @@ class FileRef:
             return not any(o and o["name"] == t[2] for o in self.objs.values())
         if t[1] == "open" and t[4] in MODES:
             others = [o for k, o in self.objs.items() if o and o["name"] == t[3] and k != t[2]]
+            if others and MODES[t[4]][0] != "r" and all(o["kind"] == "r" for o in others) and (t[3] in self.files):
+                return True       # a writer next to read streams: the readers go stale (below)
             return not (others and (MODES[t[4]][0] != "r" or any(o["kind"] != "r" for o in others)))
+        o = self.objs.get(t[2]) if len(t) > 2 else None
+        if o and o.get("stale") and t[1] not in ("size", "tell", "close", "isopen", "drop"):
+            return False          # a stale read stream is only asked what does not depend on its buffer
         return True
 
 
@@ -886,8 +902,23 @@ def gen_errors(rng):
     return case
 
 
+def gen_grown_behind_reader(rng):
+    """a read stream is open (and has been asked for its size, perhaps has read something) while the file is appended to or
+    rewritten through a second File that is closed again: size() of the first stream is the size of the FILE"""
+    c0 = rnd_content(rng, 300)
+    c1 = rnd_content(rng, 300) or b"x"
+    rmode = rng.pick(["r", "rt"])
+    case = ["file root @", "file mkfile f " + hx(c0), "file open R f " + rmode, "file size R"]
+    if rng.chance(1, 2) and c0:
+        case.append("file readbuf R 1 %d" % (1 + rng.below(len(c0))))
+    case += ["file open W f " + rng.pick(["a", "at", "a", "w"]), "file writes W " + hx(c1), "file close W",
+             "file size R", "file tell R", "file size R", "file close R", "file fsize f", "file cat f"]
+    return case
+
+
 def gen_file_cases(rng, tier):
     cases = []
+    cases += [c for c in (gen_grown_behind_reader(rng) for _ in range(60 if tier == "quick" else 600)) if file_valid(c)]
     cases += gen_all_splits(5 if tier == "quick" else 6)
     nrt, nh, ne = (700, 900, 300) if tier == "quick" else (6000, 8000, 2500)
     cases += [gen_roundtrip(rng, 5000) for _ in range(nrt)]
@@ -927,6 +958,8 @@ def model_feasible(case):
             ref.step(l)
         except Invalid:
             return True
+        if any(o and o.get("stale") for o in ref.objs.values()):
+            return False          # two streams on one file: outside the one-stream stdio specification of the model
         if t[1] in ("read", "readstr"):
             o = ref.objs.get(t[2])
             if o and o["mode"] in ("rt", "at") and len(ref.files[o["name"]]) > 48 * 1024:
